@@ -1462,6 +1462,9 @@ class TypedDictValue(GenericValue):
         return all(entry.required for entry in self.items.values())
 
     def can_assign(self, other: Value, ctx: CanAssignContext) -> CanAssign:
+        if isinstance(other, AnnotatedValue):
+            # Compare keys with the wrapped TypedDict or dict, not with its generic base
+            other = other.value
         if isinstance(other, DictIncompleteValue):
             bounds_maps = []
             for key, entry in self.items.items():
